@@ -298,7 +298,7 @@ fn seq_nth(i: u64, len: usize, ops: &[Op]) -> Option<Seq> {
 }
 
 pub fn run(ctx: &Ctx) {
-    ctx.set_rule("E2: every operation sequence of length <= 4, a strided slice of length 5 (thorough: denser, and length 6), over the 28 operations {push plain scope d, push sandboxed scope d (d = the 9 maps binding a / b to nothing, a scalar or a one-key object), push global layer, pop, set_global k v, set_index k v} from each of 3 caller data maps and in two value domains (tagged: every bound value names the layer / step that bound it; shared: all layers, global assignments and counters draw from the same two values, so a binding can equal the one it shadows), executed on the real StackFrame / SandboxedStackFrame / GlobalFrame types over `&dyn Runtime` (pop = the frame is really dropped) and on the abstract model (stack of maps + one counter map); after the last operation of every sequence (every prefix is itself an enumerated sequence): try_get(p) == model for 8 paths of length 1..2, get(p) agrees with try_get(p), roots() == the set of top-level names that resolve, get_index == model counters. E1: random sequences of length <= 12 observed after every step. Non-trivial = a push followed later by a pop or a global assignment; distinct by sequence.");
+    ctx.set_rule("E2: every operation sequence of length <= 4, a strided slice of length 5 (thorough: all of length 5 and every 29th of length 6), over the 28 operations {push plain scope d, push sandboxed scope d (d = the 9 maps binding a / b to nothing, a scalar or a one-key object), push global layer, pop, set_global k v, set_index k v} from each of 3 caller data maps and in two value domains (tagged: every bound value names the layer / step that bound it; shared: all layers, global assignments and counters draw from the same two values, so a binding can equal the one it shadows), executed on the real StackFrame / SandboxedStackFrame / GlobalFrame types over `&dyn Runtime` (pop = the frame is really dropped) and on the abstract model (stack of maps + one counter map); after the last operation of every sequence (every prefix is itself an enumerated sequence): try_get(p) == model for 8 paths of length 1..2, get(p) agrees with try_get(p), roots() == the set of top-level names that resolve, get_index == model counters. E1: random sequences of length <= 12 observed after every step. Non-trivial = a push followed later by a pop or a global assignment; distinct by sequence.");
     let ops = all_ops();
     let n = ops.len() as u64;
     let full = ctx.pick(4, 4);
@@ -309,12 +309,12 @@ pub fn run(ctx: &Ctx) {
     {
         let ops = &ops;
         let len = full + 1;
-        ctx.strided(&format!("sequences_len{len}_slice"), 6 * n.pow(len as u32), ctx.pick(37, 5), move |i| seq_nth(i, len, ops), oracle);
+        ctx.strided(&format!("sequences_len{len}_slice"), 6 * n.pow(len as u32), ctx.pick(37, 1), move |i| seq_nth(i, len, ops), oracle);
     }
     if !ctx.quick() {
         let ops = &ops;
-        ctx.strided("sequences_len6_slice", 6 * n.pow(6), 293, move |i| seq_nth(i, 6, ops), oracle);
+        ctx.strided("sequences_len6_slice", 6 * n.pow(6), 29, move |i| seq_nth(i, 6, ops), oracle);
     }
     let ops2 = ops.clone();
-    ctx.random("random_sequences", ctx.pick(400_000, 3_000_000), move || (0u8..3, proptest::collection::vec(proptest::sample::select(ops2.clone()), 5..=12), any::<bool>()).prop_map(|(base, ops, shared)| Seq { base, ops, shared }), oracle);
+    ctx.random("random_sequences", ctx.pick(400_000, 30_000_000), move || (0u8..3, proptest::collection::vec(proptest::sample::select(ops2.clone()), 5..=12), any::<bool>()).prop_map(|(base, ops, shared)| Seq { base, ops, shared }), oracle);
 }
